@@ -32,6 +32,7 @@ import (
 	"github.com/olive-io/bpmn/v2/pkg/event"
 	"github.com/olive-io/bpmn/v2/pkg/id"
 	"github.com/olive-io/bpmn/v2/pkg/tracing"
+	"github.com/olive-io/bpmn/v2/pkg/verifhook"
 )
 
 type ActivityType string
@@ -393,6 +394,7 @@ func (t *taskTrace) Do(options ...DoOption) {
 	}
 
 	response := newDoOption(options...)
+	verifhook.Point("task.do")
 	// never block: the first answer occupies the single buffer slot (and is
 	// the only one that takes effect); a further concurrent answer that got
 	// past the done check above has nobody left to receive it
